@@ -207,6 +207,9 @@ fn classify_panic(msg: &str, loc: &str) -> String {
     if msg.contains(verif::BUDGET_MESSAGE) {
         return format!("BUDGET bumps={}", verif::bumps());
     }
+    if msg.contains(verif::SORT_MESSAGE) {
+        return "NOSORT".into();
+    }
     if msg.contains("index out of bounds") && loc.contains("connect_edges.rs") {
         return "PANIC index".into();
     }
